@@ -1105,6 +1105,313 @@ def sec_lock(m):
     return lines
 
 
+# ---------------------------------------------------------------------------
+# relationship queries (C10) and kind-aware queries (C15): lexical facts the model of Nav.v relies on
+# ---------------------------------------------------------------------------
+# Lifted per accessor of node.py / typed_tree.py:
+#   * whether it searches for / compares NODES by equality (`==`, `!=`, `in`, `not in` with the bare name `self` as an
+#     operand, or a call of the equality-based list methods .index/.count/.remove)            -> NAV_EQ_ON_NODES (must stay [])
+#   * whether it compares with `is self` / `is not self`, and which other accessors it delegates to     -> NAV_IDENTITY
+#   * which attribute of `self._parent` it reads                                                         -> NAV_PARENT_READS
+#   * the attribute names on both sides of every `==` of the typed accessors (kind comparisons)         -> NAV_T_KIND_COMPARES
+#   * integer subscripts `x[0]`, `x[-1]`, `x[idx + 1]` ...                                               -> NAV_SUBSCRIPTS
+#   * comparison operators / constants of TypedNode.has_children, next_sibling, prev_sibling, last_child, Node.up,
+#     and the counters of calc_depth / count_descendants / calc_height
+NAV_NODE_FUNCS = ["get_index", "prev_sibling", "next_sibling", "is_first_sibling", "is_last_sibling", "get_siblings",
+                  "first_sibling", "last_sibling", "first_child", "last_child", "get_top", "is_descendant_of",
+                  "get_common_ancestor", "get_parent_list"]
+NAV_TYPED_FUNCS = ["get_index", "prev_sibling", "next_sibling", "is_first_sibling", "is_last_sibling", "get_siblings",
+                   "first_sibling", "last_sibling", "first_child", "last_child", "get_children", "has_children"]
+NAV_IDENTITY_FUNCS = ["get_index", "prev_sibling", "next_sibling", "is_first_sibling", "is_last_sibling", "get_siblings"]
+NAV_SUBSCRIPT_FUNCS = ["first_child", "last_child", "first_sibling", "last_sibling", "prev_sibling", "next_sibling",
+                       "is_first_sibling", "is_last_sibling"]
+NAV_DELEGATES = {"get_index", "is_first_sibling", "is_last_sibling", "first_sibling", "last_sibling", "get_siblings",
+                 "get_children"}
+_CMP_NAMES = {ast.Lt: "Lt", ast.Gt: "Gt", ast.LtE: "LtE", ast.GtE: "GtE", ast.Eq: "Eq", ast.NotEq: "NotEq"}
+
+
+def _nav_int(node):
+    """(base, offset) of an integer-valued index expression: 0, -1, idx + 1, idx - 1, idx, len(x) - 1."""
+    if isinstance(node, ast.Constant) and isinstance(node.value, int) and not isinstance(node.value, bool):
+        return ("", node.value)
+    if isinstance(node, ast.UnaryOp) and isinstance(node.op, ast.USub) and isinstance(node.operand, ast.Constant) \
+            and isinstance(node.operand.value, int):
+        return ("", -node.operand.value)
+    if isinstance(node, ast.Name):
+        return (node.id, 0)
+    if isinstance(node, ast.Call) and isinstance(node.func, ast.Name) and node.func.id == "len" and len(node.args) == 1:
+        return ("len", 0)
+    if isinstance(node, ast.BinOp) and isinstance(node.op, (ast.Add, ast.Sub)):
+        b, o = _nav_int(node.left)
+        b2, o2 = _nav_int(node.right)
+        if b2 != "":
+            raise Unsupported(f"index expression at line {node.lineno}")
+        return (b, o + o2 if isinstance(node.op, ast.Add) else o - o2)
+    raise Unsupported(f"index expression at line {getattr(node, 'lineno', '?')}")
+
+
+def _nav_cmp(node):
+    if not (isinstance(node, ast.Compare) and len(node.ops) == 1 and type(node.ops[0]) in _CMP_NAMES):
+        raise Unsupported(f"expected a simple comparison at line {getattr(node, 'lineno', '?')}")
+    return _CMP_NAMES[type(node.ops[0])], node.left, node.comparators[0]
+
+
+def _nav_fn_facts(fn, cname):
+    eq_nodes = is_self = False
+    calls, preads, kinds, subs = [], [], [], []
+    assigned = {}
+    for x in ast.walk(fn):
+        if isinstance(x, ast.Assign) and len(x.targets) == 1 and isinstance(x.targets[0], ast.Name) \
+                and isinstance(x.value, ast.Attribute):
+            assigned[x.targets[0].id] = x.value.attr
+    for x in ast.walk(fn):
+        if isinstance(x, ast.Compare):
+            operands = [x.left] + list(x.comparators)
+            bare_self = any(isinstance(o, ast.Name) and o.id == "self" for o in operands)
+            if any(isinstance(op, (ast.Eq, ast.NotEq, ast.In, ast.NotIn)) for op in x.ops):
+                if bare_self:
+                    eq_nodes = True
+                if any(isinstance(op, (ast.Eq, ast.NotEq)) for op in x.ops):
+                    for o in operands:
+                        if isinstance(o, ast.Attribute):
+                            kinds.append(o.attr)
+                        elif isinstance(o, ast.Name):
+                            kinds.append(assigned.get(o.id, o.id))
+                        else:
+                            kinds.append("?")
+            if any(isinstance(op, (ast.Is, ast.IsNot)) for op in x.ops) and bare_self:
+                is_self = True
+        if isinstance(x, ast.Call) and isinstance(x.func, ast.Attribute):
+            if x.func.attr in ("index", "count", "remove", "__contains__", "__eq__"):
+                eq_nodes = True
+            if x.func.attr in NAV_DELEGATES:
+                v = x.func.value
+                if isinstance(v, ast.Name) and v.id == "Node":
+                    qn = "Node." + x.func.attr                    # explicit base-class call Node.f(self)
+                elif isinstance(v, ast.Call) and isinstance(v.func, ast.Name) and v.func.id == "super":
+                    qn = "Node." + x.func.attr                    # super().f(...)
+                else:
+                    qn = cname + "." + x.func.attr                # self.f(...) / self._parent.f(...)
+                if qn != cname + "." + fn.name and qn not in calls:
+                    calls.append(qn)
+        if isinstance(x, ast.Attribute) and isinstance(x.value, ast.Attribute) and x.value.attr == "_parent" \
+                and isinstance(x.value.value, ast.Name) and x.value.value.id == "self":
+            if x.attr not in preads:
+                preads.append(x.attr)
+        if isinstance(x, ast.Subscript):
+            subs.append(_nav_int(x.slice))
+    return dict(eq=eq_nodes, is_self=is_self, calls=calls, preads=preads, kinds=kinds, subs=subs)
+
+
+def _nav_const_assign(fn, name):
+    for x in ast.walk(fn):
+        if isinstance(x, ast.Assign) and len(x.targets) == 1 and isinstance(x.targets[0], ast.Name) and x.targets[0].id == name:
+            b, o = _nav_int(x.value)
+            if b == "":
+                return o
+    raise Unsupported(f"{fn.name}: no literal initialisation of {name}")
+
+
+def _nav_aug(fn, name):
+    for x in ast.walk(fn):
+        if isinstance(x, ast.AugAssign) and isinstance(x.target, ast.Name) and x.target.id == name and isinstance(x.op, ast.Add):
+            b, o = _nav_int(x.value)
+            if b == "":
+                return o
+    raise Unsupported(f"{fn.name}: no `{name} += <int>`")
+
+
+def _nav_range(fn, base_names):
+    """the single `range(...)` call of fn: [start offset, stop (int or 0 when it is a name), step]"""
+    rs = [x for x in ast.walk(fn) if isinstance(x, ast.Call) and isinstance(x.func, ast.Name) and x.func.id == "range"]
+    if len(rs) != 1:
+        raise Unsupported(f"{fn.name}: expected exactly one range() call")
+    a = rs[0].args
+    if len(a) == 2:
+        (b0, o0), (b1, o1) = _nav_int(a[0]), _nav_int(a[1])
+        if b0 not in base_names or b1 == "" or o1 != 0:
+            raise Unsupported(f"{fn.name}: range() arguments")
+        return [o0, 0, 1], b1
+    if len(a) == 3:
+        (b0, o0), (b1, o1), (b2, o2) = _nav_int(a[0]), _nav_int(a[1]), _nav_int(a[2])
+        if b0 not in base_names or b1 != "" or b2 != "":
+            raise Unsupported(f"{fn.name}: range() arguments")
+        return [o0, o1, o2], ""
+    raise Unsupported(f"{fn.name}: range() arity")
+
+
+def _nav_guarded(fn):
+    def wrapped(m):
+        try:
+            return fn(m)
+        except Unsupported:
+            raise
+        except Exception as e:   # noqa: BLE001 - anything unexpected only breaks the obligations of this section
+            raise Unsupported(f"nav facts: {type(e).__name__}: {e}") from e
+    return wrapped
+
+
+def _nav_tables(cname, cls, names, pre):
+    """the per-accessor tables of one class; `pre` = NAV (node.py) or NAVT (typed_tree.py)"""
+    facts = {nm: _nav_fn_facts(func_def(cls, nm), cname) for nm in names}
+
+    def q(n):
+        return text(f"{cname}.{n}")
+
+    def tl(xs):
+        return "[" + "; ".join(text(x) for x in xs) + "]"
+
+    lines = []
+    lines.append(f"Definition {pre}_EQ_ON_NODES : list (list Z) := [" + "; ".join(q(n) for n, f in facts.items() if f["eq"]) + "].")
+    lines.append(f"Definition {pre}_IDENTITY : list (list Z * (bool * list (list Z))) := [\n" + ";\n".join(
+        f"  ({q(n)}, ({'true' if facts[n]['is_self'] else 'false'}, {tl(facts[n]['calls'])}))" for n in NAV_IDENTITY_FUNCS) + "\n].")
+    lines.append(f"Definition {pre}_PARENT_READS : list (list Z * list (list Z)) := [\n" + ";\n".join(
+        f"  ({q(n)}, {tl(facts[n]['preads'])})" for n in NAV_IDENTITY_FUNCS) + "\n].")
+    lines.append(f"Definition {pre}_VALUE_COMPARES : list (list Z * list (list Z)) := [\n" + ";\n".join(
+        f"  ({q(n)}, {tl(facts[n]['kinds'])})" for n in names) + "\n].")
+    lines.append(f"Definition {pre}_SUBSCRIPTS : list (list Z * list (list Z * Z)) := [\n" + ";\n".join(
+        f"  ({q(n)}, [{'; '.join(f'({text(b)}, ({o})%Z)' for b, o in facts[n]['subs'])}])" for n in NAV_SUBSCRIPT_FUNCS) + "\n].")
+    return lines
+
+
+def _z(v):
+    return f"({v})%Z"
+
+
+@_nav_guarded
+def sec_navt(m):
+    tcls = class_def(m["typed"], "TypedNode")
+    lines = _nav_tables("TypedNode", tcls, NAV_TYPED_FUNCS, "NAVT")
+    z = _z
+
+    # TypedNode.has_children: `return len(self.get_children(kind)) > 0`
+    hc = func_def(tcls, "has_children")
+    rets = [s for s in hc.body if isinstance(s, ast.Return)]
+    if len(rets) != 1:
+        raise Unsupported("TypedNode.has_children: expected one top-level return")
+    op, left, right = _nav_cmp(rets[0].value)
+    if not (isinstance(left, ast.Call) and isinstance(left.func, ast.Name) and left.func.id == "len" and len(left.args) == 1
+            and isinstance(left.args[0], ast.Call) and isinstance(left.args[0].func, ast.Attribute)
+            and left.args[0].func.attr == "get_children"):
+        raise Unsupported("TypedNode.has_children: left operand is not len(self.get_children(kind))")
+    b, k = _nav_int(right)
+    if b != "":
+        raise Unsupported("TypedNode.has_children: right operand is not a literal")
+    lines.append(f"Definition NAV_T_HAS_CHILDREN_OP : list Z := {text(op)}.")
+    lines.append(f"Definition NAV_T_HAS_CHILDREN_K : Z := {z(k)}.")
+
+    def guard_of(fn, idx_name):
+        ifs = [s for s in fn.body if isinstance(s, ast.If)]
+        if len(ifs) != 1:
+            raise Unsupported(f"TypedNode.{fn.name}: expected one top-level if")
+        op, left, right = _nav_cmp(ifs[0].test)
+        if not (isinstance(left, ast.Name) and left.id == idx_name):
+            raise Unsupported(f"TypedNode.{fn.name}: guard is not on {idx_name}")
+        return op, _nav_int(right)
+
+    def assigned_from(fn, name, pred, what):
+        for s in fn.body:
+            if isinstance(s, ast.Assign) and len(s.targets) == 1 and isinstance(s.targets[0], ast.Name) and s.targets[0].id == name:
+                if pred(s.value):
+                    return
+        raise Unsupported(f"TypedNode.{fn.name}: {name} is not {what}")
+
+    def is_get_index(v):
+        return (isinstance(v, ast.Call) and isinstance(v.func, ast.Attribute) and v.func.attr == "get_index"
+                and isinstance(v.func.value, ast.Name) and v.func.value.id == "Node"
+                and len(v.args) == 1 and isinstance(v.args[0], ast.Name) and v.args[0].id == "self" and not v.keywords)
+
+    def is_parent_children(v):
+        return (isinstance(v, ast.Attribute) and v.attr == "_children" and isinstance(v.value, ast.Attribute)
+                and v.value.attr == "_parent" and isinstance(v.value.value, ast.Name) and v.value.value.id == "self")
+
+    def is_len_pc(v):
+        return (isinstance(v, ast.Call) and isinstance(v.func, ast.Name) and v.func.id == "len" and len(v.args) == 1
+                and isinstance(v.args[0], ast.Name) and v.args[0].id == "pc")
+
+    nx = func_def(tcls, "next_sibling")
+    assigned_from(nx, "pc", is_parent_children, "self._parent._children")
+    assigned_from(nx, "pc_len", is_len_pc, "len(pc)")
+    assigned_from(nx, "own_idx", is_get_index, "Node.get_index(self)")
+    op, (b, o) = guard_of(nx, "own_idx")
+    if b != "pc_len":
+        raise Unsupported("TypedNode.next_sibling: guard bound is not pc_len +/- literal")
+    rng, stop = _nav_range(nx, {"own_idx"})
+    if stop != "pc_len":
+        raise Unsupported("TypedNode.next_sibling: range stop is not pc_len")
+    lines.append(f"Definition NAV_T_NEXT_GUARD_OP : list Z := {text(op)}.")
+    lines.append(f"Definition NAV_T_NEXT_GUARD_ADD : Z := {z(o)}.")
+    lines.append(f"Definition NAV_T_NEXT_RANGE_START : Z := {z(rng[0])}.")
+
+    pv = func_def(tcls, "prev_sibling")
+    assigned_from(pv, "pc", is_parent_children, "self._parent._children")
+    assigned_from(pv, "own_idx", is_get_index, "Node.get_index(self)")
+    op, (b, o) = guard_of(pv, "own_idx")
+    if b != "":
+        raise Unsupported("TypedNode.prev_sibling: guard bound is not a literal")
+    rng, _ = _nav_range(pv, {"own_idx"})
+    lines.append(f"Definition NAV_T_PREV_GUARD_OP : list Z := {text(op)}.")
+    lines.append(f"Definition NAV_T_PREV_GUARD_K : Z := {z(o)}.")
+    lines.append("Definition NAV_T_PREV_RANGE : list Z := [" + "; ".join(z(v) for v in rng) + "].")
+    rng, _ = _nav_range(func_def(tcls, "last_child"), {"len"})
+    lines.append("Definition NAV_T_LAST_CHILD_RANGE : list Z := [" + "; ".join(z(v) for v in rng) + "].")
+
+    return lines
+
+
+@_nav_guarded
+def sec_nav(m):
+    ncls = class_def(m["node"], "Node")
+    lines = _nav_tables("Node", ncls, NAV_NODE_FUNCS, "NAV")
+    z = _z
+    # Node.up: `if level < 1: raise`
+    up = func_def(ncls, "up")
+    ifs = [s for s in up.body if isinstance(s, ast.If)]
+    if not ifs or not any(isinstance(t, ast.Raise) for t in ifs[0].body):
+        raise Unsupported("Node.up: no leading guard")
+    op, left, right = _nav_cmp(ifs[0].test)
+    b, k = _nav_int(right)
+    if not (isinstance(left, ast.Name) and left.id == "level" and b == ""):
+        raise Unsupported("Node.up: guard shape")
+    lines.append(f"Definition NAV_UP_GUARD_OP : list Z := {text(op)}.")
+    lines.append(f"Definition NAV_UP_GUARD_K : Z := {z(k)}.")
+
+    cd = func_def(ncls, "calc_depth")
+    lines.append(f"Definition NAV_DEPTH_INIT : Z := {z(_nav_const_assign(cd, 'depth'))}.")
+    lines.append(f"Definition NAV_DEPTH_STEP : Z := {z(_nav_aug(cd, 'depth'))}.")
+    cn = func_def(ncls, "count_descendants")
+    lines.append(f"Definition NAV_COUNT_INIT : Z := {z(_nav_const_assign(cn, 'i'))}.")
+    lines.append(f"Definition NAV_COUNT_STEP : Z := {z(_nav_aug(cn, 'i'))}.")
+    ch = func_def(ncls, "calc_height")
+    inner = [s for s in ch.body if isinstance(s, ast.FunctionDef)]
+    if len(inner) != 1:
+        raise Unsupported("Node.calc_height: expected one inner function")
+    init = _nav_const_assign(ast.Module(body=[s for s in ch.body if isinstance(s, ast.Assign)], type_ignores=[]), "height") \
+        if any(isinstance(s, ast.Assign) for s in ch.body) else None
+    if init is None:
+        raise Unsupported("Node.calc_height: height not initialised")
+    start = [s.value for s in ch.body if isinstance(s, ast.Expr) and isinstance(s.value, ast.Call)
+             and isinstance(s.value.func, ast.Name) and s.value.func.id == inner[0].name]
+    if len(start) != 1 or len(start[0].args) != 2:
+        raise Unsupported("Node.calc_height: start call")
+    b, st = _nav_int(start[0].args[1])
+    rec = [x for x in ast.walk(inner[0]) if isinstance(x, ast.Call) and isinstance(x.func, ast.Name) and x.func.id == inner[0].name]
+    if len(rec) != 1 or len(rec[0].args) != 2:
+        raise Unsupported("Node.calc_height: recursive call")
+    hb, hstep = _nav_int(rec[0].args[1])
+    cmps = [x for x in ast.walk(inner[0]) if isinstance(x, ast.Compare)]
+    if len(cmps) != 1 or b != "" or hb != "h":
+        raise Unsupported("Node.calc_height: shape")
+    op, left, right = _nav_cmp(cmps[0])
+    if not (isinstance(left, ast.Name) and left.id == "h" and isinstance(right, ast.Name) and right.id == "height"):
+        raise Unsupported("Node.calc_height: comparison")
+    lines.append(f"Definition NAV_HEIGHT_INIT : Z := {z(init)}.")
+    lines.append(f"Definition NAV_HEIGHT_START : Z := {z(st)}.")
+    lines.append(f"Definition NAV_HEIGHT_STEP : Z := {z(hstep)}.")
+    lines.append(f"Definition NAV_HEIGHT_CMP : list Z := {text(op)}.")
+    return lines
+
+
 # section name -> (function, source files it reads, properties whose obligations use it)
 SECTIONS = [
     ("CONNECTORS", sec_connectors, ["common", "tree"]),
@@ -1119,6 +1426,8 @@ SECTIONS = [
     ("DICTLIST", sec_dictlist, []),
     ("DOCS", sec_docs, []),
     ("LOCK", sec_lock, ["tree", "typed", "fs", "dot", "node"]),
+    ("NAV", sec_nav, ["node"]),
+    ("NAVT", sec_navt, ["typed"]),
 ]
 FILES = dict(common="common.py", tree="tree.py", typed="typed_tree.py", fs="fs.py", diff="diff.py", mermaid="mermaid.py",
              dot="dot.py", init="__init__.py", node="node.py")
